@@ -37,7 +37,7 @@ struct LenpHarness : Harness {
     std::vector<std::string> probes(const std::string &) const override {
         return {"varint_prefix_1", "varint_prefix_2", "varint_prefix_3plus", "buffer_with_offset_and_free_space", "chunk_list_with_empty_chunk", "chunk_list_active_nonzero",
                 "frame_split_inside_prefix", "destination_one_octet_too_small", "over_maximum_refused", "sink_error_mid_frame", "buffer_n_less_than_rest",
-                "n_beyond_unread_refused", "fragmented_decode", "append_behind_existing_content", "multi_frame_stream_fragmented"};
+                "n_beyond_unread_refused", "fragmented_decode", "append_behind_existing_content", "multi_frame_stream_fragmented", "source_interruption_during_decode"};
     }
     uint64_t runs(const std::string &, const Tier &t) const override { return t.thorough() ? 10000000 : 1200000; }
 
@@ -55,7 +55,7 @@ struct LenpHarness : Harness {
         d["real"] = real; d["stubs"] = stubs;
         Json as = Json::arr();
         as.push("payload lengths above 65536 are exercised on the refusal path only (a 4 GiB payload cannot be materialised); length 0 is not generated (the property starts at 1)");
-        as.push("source scripts contain fragmentation only (k >= 1): the varint prefix is read with source_get_octet, which is pass-through (C17)");
+        as.push("source scripts contain short reads (k >= 1) and, for the fixed-width kinds only, the retry conditions 0 / -EINTR / -EAGAIN; the varint prefix is read with source_get_octet, which is pass-through (C17)");
         as.push("after an injected sink error only 'error returned, sink holds a prefix of the expected frame' is demanded");
         as.push("on -ENOMEM (destination too small) nothing is demanded about the source position");
         d["assumptions"] = as;
@@ -113,7 +113,7 @@ struct LenpHarness : Harness {
             // stream of several frames
             { Json fr = Json::arr(); int nf = (int)r.range(2, 4); for (int q = 0; q < nf; ++q) fr.push((long long)r.range(1, r.chance(1, 4) ? 300 : 12)); o["frames"] = fr; }
             o["src_octet"] = r.chance(1, 3); o["snk_octet"] = r.chance(1, 3);
-            { Json s = Json::arr(); int n = r.chance(1, 3) ? 0 : (int)r.range(1, 10); for (int q = 0; q < n; ++q) s.push((long long)r.range(1, 4)); o["frag"] = s; }
+            { Json s = Json::arr(); int n = r.chance(1, 3) ? 0 : (int)r.range(1, 10); for (int q = 0; q < n; ++q) { switch (r.below(8)) { case 0: s.push(0); break; case 1: s.push(-EINTR); break; case 2: s.push(-EAGAIN); break; default: s.push((long long)r.range(1, 4)); } } o["frag"] = s; }
             { Json s = Json::arr(); int n = r.chance(1, 2) ? 0 : (int)r.range(1, 8);
               for (int q = 0; q < n; ++q) { switch (r.below(6)) { case 0: s.push(0); break; case 1: s.push(-EINTR); break; case 2: s.push(-EAGAIN); break; default: s.push((long long)r.range(1, 5)); } }
               o["ks"] = s; }
@@ -322,9 +322,14 @@ struct LenpHarness : Harness {
             src.data.insert(src.data.end(), pl.begin(), pl.end());
             payloads.push_back(pl);
         }
-        // fragmentation script: k >= 1 only
-        { Json s = Json::arr(); const Json &fj = o.get("frag"); for (size_t q = 0; q < fj.size(); ++q) { int64_t v = fj.ati(q, 1); s.push((long long)(v < 1 ? 1 : v)); } src.begin_op(s); }
-        if (!src.script.e.empty()) { size_t pl = ref_prefix(k, payloads[0].size()).size(); if (pl > 1 && src.script.e[0] < (int64_t)pl) COUNT("probe.frame_split_inside_prefix"); }
+        // fragmentation script: short reads (k >= 1); for the fixed-width kinds, whose prefix and payload are read through
+        // source_get_chunk(), also the interruptions that call documents as "retry" (0, -EINTR, -EAGAIN). The varint prefix
+        // is read octet-wise without retry (pass-through, C17), so for that kind only short reads are scripted.
+        { Json s = Json::arr(); const Json &fj = o.get("frag");
+          for (size_t q = 0; q < fj.size(); ++q) { int64_t v = fj.ati(q, 1); bool transient = v == 0 || v == -EINTR || v == -EAGAIN; if (v < 1 && !(transient && k != 0)) v = 1; s.push((long long)v); }
+          src.begin_op(s); }
+        if (!src.script.e.empty()) { size_t pl = ref_prefix(k, payloads[0].size()).size(); if (pl > 1 && src.script.e[0] >= 1 && src.script.e[0] < (int64_t)pl) COUNT("probe.frame_split_inside_prefix"); }
+        for (auto v : src.script.e) if (v < 1) { COUNT("probe.source_interruption_during_decode"); break; }
         Source source; src.bind(&source);
         const uint64_t dbudget = 8 * (src.data.size() + src.script.e.size() + snk.script.e.size()) + 256;
 
